@@ -1,0 +1,8 @@
+//go:build verif
+
+// Contracts for package service, checked by /verif/govc (comment-only; see /verif/DESIGN.md).
+package service
+
+// IsRunning reads two atomic flags.
+//@ trusted func (bs *BaseService) IsRunning() (r bool)
+//@   modifies nothing
